@@ -292,8 +292,13 @@ inline std::string crashKey(const std::string& stderrText, int sig){
         return "crash:assert";
     }
     if(stderrText.find("AddressSanitizer") != std::string::npos){
-        const size_t e = stderrText.find("ERROR: AddressSanitizer: ");
-        if(e != std::string::npos){ size_t sp = stderrText.find(' ', e+25); return "crash:asan:" + stderrText.substr(e+25, sp-(e+25)); }
+        const std::string tag = "ERROR: AddressSanitizer: ";
+        const size_t e = stderrText.find(tag);
+        if(e != std::string::npos){
+            size_t sp = e + tag.size();
+            while(sp < stderrText.size() && (isalnum((unsigned char)stderrText[sp]) || stderrText[sp] == '-' || stderrText[sp] == '_')) ++sp;
+            return "crash:asan:" + stderrText.substr(e + tag.size(), sp - (e + tag.size()));
+        }
         return "crash:asan";
     }
     if(stderrText.find("runtime error:") != std::string::npos) return "crash:ubsan";
@@ -355,10 +360,12 @@ inline int supervise(const Args& args, const std::string& property, const std::f
         }
         // crash or hang: attribute to the published case
         const int sig = hung ? SIGKILL : (WIFSIGNALED(status) ? WTERMSIG(status) : 1000 + WEXITSTATUS(status));
-        const std::string err = lastLines(childErr, 3000);
+        const std::string err = lastLines(childErr, 60000);
         const std::string key = hung ? std::string("hang:no-progress") : crashKey(err, sig);
         std::string detail = err;
         { const size_t a = detail.rfind("Assertion `"); if(a != std::string::npos) detail = detail.substr(a); }
+        { const size_t a = detail.find("ERROR: AddressSanitizer"); if(a != std::string::npos) detail = detail.substr(a, 900); }
+        { const size_t a = detail.find("runtime error:"); if(a != std::string::npos) detail = detail.substr(a > 200 ? a-200 : 0, 900); }
         if(detail.size() > 900) detail = detail.substr(detail.size()-900);
         Outcome o; o.add(key, detail);
         total.addOutcome(o, std::string(sh->caseText));
